@@ -406,7 +406,7 @@ class SymMixin:
             if da and db and op == "sub":
                 return Sym(term, "timedelta")
             if (da and tb) or (ta and db and op == "add"):
-                run.emit("may-raise", "OverflowError", self.site(node), "datetime arithmetic")
+                self.may_raise(run, "OverflowError", self.site(node), "datetime arithmetic")
                 return Sym(term, "datetime")
             if ta and tb:
                 return Sym(term, "timedelta")
@@ -542,7 +542,7 @@ class SymMixin:
     # ------------------------------------------------------------------ lookups that fork
     def sym_enum_lookup(self, cls, v: Sym, run, node):
         if len(cls.flags["enum"]) > 8:  # a large enum is a conversion with a raise arm, not a switch
-            run.emit("may-raise", "ValueError", self.site(node), f"{cls.name}(<run-time value>) with no such member")
+            self.may_raise(run, "ValueError", self.site(node), f"{cls.name}(<run-time value>) with no such member")
             return Sym(("enum-lookup", cls.ref, v.term), "enum", cls=cls, src=v)
         for m in cls.flags["enum"].values():
             r = self.sym_compare("eq", v, m.value, run, node)
@@ -637,7 +637,7 @@ class SymMixin:
                 if elems is not None and isinstance(k, int):
                     return elems[k]
                 et = o.info.get("elem")
-                run.emit("may-raise", "IndexError", self.site(node), "index into a tuple of unknown length")
+                self.may_raise(run, "IndexError", self.site(node), "index into a tuple of unknown length")
                 idx = k if isinstance(k, int) and not isinstance(k, bool) else kterm(k)
                 return self.sym_of_type(("item", o.term, idx), et) if et is not None else Sym(("item", o.term, idx))
             if kind == "bytes":
@@ -900,7 +900,7 @@ class SymMixin:
         at = tuple(kterm(x) for x in a) + tuple((kk, kterm(v)) for kk, v in sorted(kw.items()))
         site = self.site(node)
         if k == "bytes" and name == "decode":
-            run.emit("may-raise", "UnicodeDecodeError", site, "bytes.decode of wire data")
+            self.may_raise(run, "UnicodeDecodeError", site, "bytes.decode of wire data")
             codec = (a[0] if a else kw.get("encoding", "utf-8"), a[1] if len(a) > 1 else kw.get("errors", "strict"))
             return Sym(("decode", t, codec), "str", codec=codec)
         if k == "str" and name == "encode":
@@ -913,7 +913,7 @@ class SymMixin:
             bv, lo, hi = self.int_parts(o)
             if isinstance(length, int) and not signed:
                 if lo is None or hi is None or lo < 0 or hi >= (1 << (8 * length)):
-                    run.emit("may-raise", "OverflowError", site, "int.to_bytes of a value not known to fit")
+                    self.may_raise(run, "OverflowError", site, "int.to_bytes of a value not known to fit")
             return Sym(("to_bytes", t, kterm(length), kterm(order), kterm(signed)), "bytes", len=length,
                        intval=o, order=order, signed=signed)
         if k == "datetime":
@@ -955,6 +955,8 @@ class SymMixin:
         ta = tuple(kterm(x) for x in a) + tuple((k, kterm(v)) for k, v in sorted(kw.items()))
         if name.startswith("symm."):
             return self.sym_method(a[0], name[5:], a[1:], kw, run, node)
+        if name in ("struct.Struct.pack", "struct.Struct.unpack") and a and isinstance(a[0], InstV):
+            return self.call_lib("struct." + name.rsplit(".", 1)[1], [a[0].attrs["format"]] + list(a[1:]), kw, run, node)
         if name == "struct.pack":
             fmt = a[0]
             if not isinstance(fmt, str):
@@ -964,16 +966,20 @@ class SymMixin:
             except _struct.error:
                 self.throw("struct.error", "bad format", node)
             codes = [c for c in fmt if c.isalpha() or c == "?"]
-            if len(codes) == 1 and codes[0] in FMT_RANGE and len(a) == 2:
-                bits, signed = FMT_RANGE[codes[0]]
-                flo, fhi = (-(1 << (bits - 1)), (1 << (bits - 1)) - 1) if signed else (0, (1 << bits) - 1)
-                _, lo, hi = self.int_parts(a[1], run)
-                kv = self.kind_of(a[1], run) if isinstance(a[1], Sym) else "int"
-                fits = lo is not None and hi is not None and flo <= lo and hi <= fhi
-                if kv not in ("int", "bool"):
-                    run.emit("may-raise", "struct.error", site, f"struct.pack({fmt!r}) of a {kv} value")
-                elif not fits:
-                    run.emit("may-raise", "struct.error", site, f"struct.pack({fmt!r}) of a value not known to fit")
+            plain = not any(ch.isdigit() for ch in fmt) and "x" not in fmt and len(codes) == len(a) - 1
+            if plain:
+                for code, val in zip(codes, a[1:]):
+                    if code not in FMT_RANGE:
+                        continue
+                    bits, signed = FMT_RANGE[code]
+                    flo, fhi = (-(1 << (bits - 1)), (1 << (bits - 1)) - 1) if signed else (0, (1 << bits) - 1)
+                    _, lo, hi = self.int_parts(val, run)
+                    kv = self.kind_of(val, run) if isinstance(val, Sym) else ("int" if isinstance(val, int) else "any")
+                    fits = lo is not None and hi is not None and flo <= lo and hi <= fhi
+                    if kv not in ("int", "bool"):
+                        self.may_raise(run, "struct.error", site, f"struct.pack({fmt!r}) of a {kv} value")
+                    elif not fits:
+                        self.may_raise(run, "struct.error", site, f"struct.pack({fmt!r}) of a value not known to fit")
             return Sym(("pack", fmt) + ta[1:], "bytes", len=size, fmt=fmt, packed=list(a[1:]))
         if name == "struct.unpack":
             fmt, data = a
@@ -985,7 +991,7 @@ class SymMixin:
                 run.emit("raise-site", "struct.error", site, f"struct.unpack({fmt!r}) needs {size} bytes, buffer has {ln!r}")
                 if isinstance(ln, int):
                     self.throw("struct.error", "unpack requires a buffer of the right size", node)
-                run.emit("may-raise", "struct.error", site, "buffer length not known to equal calcsize")
+                self.may_raise(run, "struct.error", site, "buffer length not known to equal calcsize")
             codes = [c for c in fmt if c.isalpha() or c == "?"]
             out = []
             for i, c in enumerate(codes):
@@ -1015,14 +1021,14 @@ class SymMixin:
             if isinstance(v, Sym) and v.info.get("elem_values"):
                 ev0 = v.info["elem_values"][0]
                 k = self.kind_of(ev0, run) if isinstance(ev0, Sym) else "any"
-                run.emit("may-raise", "ValueError", site, f"{name}() of a possibly empty sequence")
+                self.may_raise(run, "ValueError", site, f"{name}() of a possibly empty sequence")
                 return Sym((name, kterm(v)), k, **{kk: vv for kk, vv in (ev0.info.items() if isinstance(ev0, Sym) else []) if kk in ("vtype", "cls")})
             if isinstance(v, tuple):
                 k = next((self.kind_of(x, run) for x in v if isinstance(x, Sym)), "any")
                 return Sym((name, kterm(v)), k)
             if isinstance(v, Sym) and self.kind_of(v, run) == "tuple":
                 et = v.info.get("elem")
-                run.emit("may-raise", "ValueError", site, f"{name}() of a possibly empty sequence")
+                self.may_raise(run, "ValueError", site, f"{name}() of a possibly empty sequence")
                 return self.sym_of_type((name, v.term), et) if et is not None else Sym((name, v.term))
         if name == "abs":
             return Sym(("abs", kterm(a[0])), self.kind_of(a[0], run))
@@ -1041,8 +1047,8 @@ class SymMixin:
         if name == "math.isfinite":
             return Sym(("isfinite", kterm(a[0])), "bool")
         if name == "datetime.datetime.fromtimestamp":
-            run.emit("may-raise", "OverflowError", site, "datetime.fromtimestamp of wire data")
-            run.emit("may-raise", "ValueError", site, "datetime.fromtimestamp of wire data")
+            self.may_raise(run, "OverflowError", site, "datetime.fromtimestamp of wire data")
+            self.may_raise(run, "ValueError", site, "datetime.fromtimestamp of wire data")
             run.emit("note", "OSError", site, "datetime.fromtimestamp may raise OSError on some platforms (observation O3)")
             tz = a[1] if len(a) > 1 else kw.get("tz")
             return Sym(("fromtimestamp", ta), "datetime", src=a[0], tz=tz)
@@ -1059,7 +1065,7 @@ class SymMixin:
                 for c in dict.fromkeys(cands):
                     out.append(self.call_lib(name, [c], {}, run, node))  # raises if one candidate does not resolve
                 return self.one_of_sym(("resolve_name", ta), out)
-            run.emit("may-raise", "ImportError", site, "resolve_name of a run-time string")
+            self.may_raise(run, "ImportError", site, "resolve_name of a run-time string")
             return Sym(("resolve_name", ta), "any")
         if name == "isinstance":
             return self.isinstance_(a[0], a[1], run, node)
@@ -1089,11 +1095,11 @@ class SymMixin:
             if k in ("int", "bool"):
                 return v
             if k == "float":
-                run.emit("may-raise", "OverflowError", site, "int() of a float that may be infinite")
+                self.may_raise(run, "OverflowError", site, "int() of a float that may be infinite")
                 return Sym(("int", kterm(v)), "int", conv="trunc", src=v)
             if k == "enum":
                 return self.sym_getattr(v, "value", run, node)
-            run.emit("may-raise", "ValueError", site, "int() of a non-numeric value")
+            self.may_raise(run, "ValueError", site, "int() of a non-numeric value")
             return Sym(("int", kterm(v)), "int")
         if n == "float":
             return Sym(("float", ta), "float", inexact=True)
@@ -1113,7 +1119,7 @@ class SymMixin:
                 for x in items:
                     _, lo, hi = self.int_parts(x, run) if isinstance(x, (Sym, int)) else (None, None, None)
                     if lo is None or hi is None or lo < 0 or hi > 255:
-                        run.emit("may-raise", "ValueError", site, "bytes() of an integer not known to be in range(256)")
+                        self.may_raise(run, "ValueError", site, "bytes() of an integer not known to be in range(256)")
                 return Sym(("bytes-of", tuple(kterm(x) for x in items)), "bytes", len=len(items), byte_values=items)
             return Sym(("bytes", ta), "bytes")
         if n == "tuple":
@@ -1135,7 +1141,7 @@ class SymMixin:
                 return Sym(("range", kterm(cnt)), "range", count=cnt)
             self.limit("range() with several symbolic bounds", node)
         if n == "datetime.timedelta":
-            run.emit("may-raise", "OverflowError", site, "timedelta() of wire data")
+            self.may_raise(run, "OverflowError", site, "timedelta() of wire data")
             for v in list(a) + list(kw.values()):
                 if isinstance(v, Sym) and self.kind_of(v, run) == "float" and v.info.get("inexact"):
                     pass
@@ -1145,7 +1151,7 @@ class SymMixin:
             if b is not None:
                 ln = b.info.get("len") if isinstance(b, Sym) else len(b)
                 if ln != 16:
-                    run.emit("may-raise", "ValueError", site, "UUID(bytes=) of a value not known to be 16 bytes")
+                    self.may_raise(run, "ValueError", site, "UUID(bytes=) of a value not known to be 16 bytes")
             return Sym(("UUID", ta), "uuid", src=b)
         if n == "io.BytesIO":
             s = StreamV("local", site=site, init=a[0] if a else None)
@@ -1173,6 +1179,24 @@ class SymMixin:
                 self.stream_fault_hook(run, s, "read", term, site)
             return Sym(term, "bytes", raw_read=True, size=n, stream=s)
         if name == "write":
+            b0 = a[0] if a else None
+            if isinstance(b0, Sym) and b0.term[0] == "pack" and len(b0.info.get("packed") or []) > 1:
+                # one write of several packed fields = the same bytes as one write per field, in order
+                fmt = b0.info["fmt"]
+                order = fmt[0] if fmt and fmt[0] in "<>=!@" else ""
+                codes = [c for c in fmt if c.isalpha() or c == "?"]
+                if not any(ch.isdigit() for ch in fmt) and "x" not in fmt and len(codes) == len(b0.info["packed"]) and order in (">", "<", "!", "="):
+                    def one(code, val):
+                        f1 = order + code
+                        if isinstance(val, (int, float, bool)) and not isinstance(val, Obj):
+                            try:
+                                return _struct.pack(f1, val)  # a constant field packs to constant bytes
+                            except _struct.error:
+                                pass
+                        return Sym(("pack", f1, kterm(val)), "bytes", len=_struct.calcsize(f1), fmt=f1, packed=[val])
+                    for code, val in zip(codes[:-1], b0.info["packed"][:-1]):
+                        run.emit("write", s, one(code, val), ("write-result", s.uid, len(run.effects)), site)
+                    a = [one(codes[-1], b0.info["packed"][-1])]
             res = ("write-result", s.uid, len(run.effects))
             run.emit("write", s, a[0] if a else None, res, site)
             if self.stream_fault_hook is not None and s.kind == "param":
